@@ -3495,3 +3495,177 @@ func ruleGuardTight(prog *Program, rep *Report, floor int, rels ...string) {
 	rep.Rules = append(rep.Rules, "P-guardtight: a condition `K < len(x) && ...` whose later conjuncts and whose branch index x by constants no larger than J < K demands more elements than it looks at ("+strings.Join(rels, ", ")+")")
 	runSynRule(prog, rep, "P-guardtight", rels, matchGuardTight, fixtureGuardTight, 1, floor)
 }
+
+// ---------------------------------------------------------------- M-operandset
+
+// matchOperandSet: a loop `for i, ev := range S` that rewrites the elements of S by kind - a type switch whose
+// clauses assign S[i] - has to assign S[i] on every path of a clause that assigns it at all: a path that falls
+// out of the clause without the assignment leaves the raw element (an unresolved path expression) for the code
+// that follows.
+func matchOperandSet(files []*ast.File, info *types.Info) (sites []synSite, examined int) {
+	for _, f := range files {
+		ast.Inspect(f, func(n ast.Node) bool {
+			rs, ok := n.(*ast.RangeStmt)
+			if !ok || rs.Key == nil {
+				return true
+			}
+			keyID, ok := rs.Key.(*ast.Ident)
+			if !ok {
+				return true
+			}
+			key := info.Defs[keyID]
+			if key == nil {
+				key = info.Uses[keyID]
+			}
+			sx := types.ExprString(rs.X)
+			isElem := func(e ast.Expr) bool {
+				ix, ok := ast.Unparen(e).(*ast.IndexExpr)
+				if !ok || types.ExprString(ix.X) != sx {
+					return false
+				}
+				id, ok := ast.Unparen(ix.Index).(*ast.Ident)
+				return ok && info.Uses[id] == key
+			}
+			assignsElem := func(node ast.Node) bool {
+				found := false
+				ast.Inspect(node, func(k ast.Node) bool {
+					if as, ok := k.(*ast.AssignStmt); ok {
+						for _, l := range as.Lhs {
+							if isElem(l) {
+								found = true
+							}
+						}
+					}
+					return true
+				})
+				return found
+			}
+			// definite assignment along the statement tree; a jump leaves the clause (the tree assigns before it jumps)
+			var must func(list []ast.Stmt) bool
+			var mustStmt func(s ast.Stmt) bool
+			mustStmt = func(s ast.Stmt) bool {
+				switch x := s.(type) {
+				case *ast.AssignStmt:
+					for _, l := range x.Lhs {
+						if isElem(l) {
+							return true
+						}
+					}
+				case *ast.BranchStmt, *ast.ReturnStmt:
+					return true
+				case *ast.BlockStmt:
+					return must(x.List)
+				case *ast.IfStmt:
+					if x.Else == nil {
+						return false
+					}
+					return must(x.Body.List) && mustStmt(x.Else)
+				case *ast.SwitchStmt:
+					hasDefault := false
+					for _, c := range x.Body.List {
+						cc := c.(*ast.CaseClause)
+						if cc.List == nil {
+							hasDefault = true
+						}
+						if !must(cc.Body) {
+							return false
+						}
+					}
+					return hasDefault
+				case *ast.TypeSwitchStmt:
+					hasDefault := false
+					for _, c := range x.Body.List {
+						cc := c.(*ast.CaseClause)
+						if cc.List == nil {
+							hasDefault = true
+						}
+						if !must(cc.Body) {
+							return false
+						}
+					}
+					return hasDefault
+				case *ast.LabeledStmt:
+					return mustStmt(x.Stmt)
+				}
+				return false
+			}
+			must = func(list []ast.Stmt) bool {
+				for _, s := range list {
+					if mustStmt(s) {
+						return true
+					}
+				}
+				return false
+			}
+			ast.Inspect(rs.Body, func(k ast.Node) bool {
+				ts, ok := k.(*ast.TypeSwitchStmt)
+				if !ok {
+					return true
+				}
+				n := 0
+				for _, c := range ts.Body.List {
+					if assignsElem(c) {
+						n++
+					}
+				}
+				if n < 5 {
+					return true
+				}
+				for _, c := range ts.Body.List {
+					cc := c.(*ast.CaseClause)
+					if !assignsElem(cc) {
+						continue
+					}
+					examined++
+					if !must(cc.Body) {
+						var names []string
+						for _, t := range cc.List {
+							names = append(names, types.ExprString(t))
+						}
+						name := enclosingFuncName(f, cc.Pos())
+						sites = append(sites, synSite{pos: cc.Pos(), file: f, key: fmt.Sprintf("%s:clause-%s:may-leave-%s[%s]-unset", name, strings.Join(names, ","), sx, keyID.Name),
+							msg: fmt.Sprintf("%s: the clause for %s assigns %s[%s] on some paths only: on the others the element keeps its raw value (an unresolved operand)", name, strings.Join(names, ", "), sx, keyID.Name)})
+					}
+				}
+				return false
+			})
+			return true
+		})
+	}
+	return
+}
+
+const fixtureOperandSet = `package fixture
+
+type expr []string
+
+func find(x expr) (any, bool) { return nil, false }
+
+func resolve(s []any) {
+	for i, ev := range s {
+		switch x := ev.(type) {
+		case expr:
+			if v, has := find(x); has {
+				s[i] = v
+			}
+		case int:
+			s[i] = int64(x)
+		case int8:
+			s[i] = int64(x)
+		case int16:
+			s[i] = int64(x)
+		case int32:
+			if x < 0 {
+				s[i] = int64(-x)
+			} else {
+				s[i] = int64(x)
+			}
+		}
+	}
+}
+`
+
+func ruleOperandSet(prog *Program, rep *Report, floor int, rels ...string) {
+	rep.Rules = append(rep.Rules, "M-operandset: in a loop that rewrites the elements of a slice by kind (type switch with at least five clauses that assign S[i]) every clause that assigns S[i] assigns it on every path that falls out of the clause ("+strings.Join(rels, ", ")+")")
+	runSynRule(prog, rep, "M-operandset", rels, matchOperandSet, fixtureOperandSet, 1, floor)
+}
